@@ -280,13 +280,83 @@ func checkMemoParity(p *core.Prog, r *core.Result, ops *opTable, dt *decoderTabl
 		r.Bad("R7.4", construct, p.Pos(memoizeE.Pos()), "memoize does not both assign an id and emit MEMOIZE")
 	} else {
 		sameCond := upd.Block() == emit.Block()
-		idIsLen := false
+		idIsLen, idIsCounter := false, false
 		if c, ok := stripConv(upd.Value).(*ssa.Call); ok {
 			if b, ok := c.Call.Value.(*ssa.Builtin); ok && b.Name() == "len" && core.LoadOfField(c.Call.Args[0], pkgPickle, "Encoder", "memo") && core.Dominates(c, upd) {
 				idIsLen = true
 			}
 		}
-		r.Check(sameCond && idIsLen, "R7.4", construct, p.InstrPos(upd), "the id is len(memo) taken before insertion and MEMOIZE is emitted in the same block", "id assignment and MEMOIZE emission can diverge (different conditions, or id is not the memo size before insertion): encoder ids and decoder memo indices drift apart")
+		// a dedicated counter: id = e.F, and e.F is incremented by exactly one in the same block
+		if ld, ok := stripConv(upd.Value).(*ssa.UnOp); ok && ld.Op == token.MUL {
+			if fa, ok := ld.X.(*ssa.FieldAddr); ok {
+				if owner, fld := core.FieldOf(fa); owner != nil && owner.Obj().Name() == "Encoder" {
+					for _, in := range upd.Block().Instrs {
+						st, ok := in.(*ssa.Store)
+						if !ok || !core.IsField(st.Addr, pkgPickle, "Encoder", fld) {
+							continue
+						}
+						if bo, ok := st.Val.(*ssa.BinOp); ok && bo.Op == token.ADD && core.LoadOfField(bo.X, pkgPickle, "Encoder", fld) {
+							if k, ok := core.ConstInt(bo.Y); ok && k == 1 {
+								idIsCounter = true
+							}
+						}
+					}
+					// and nothing else writes the counter
+					for _, fn := range p.ModuleFuncs() {
+						core.Instrs(fn, func(in ssa.Instruction) {
+							if st, ok := in.(*ssa.Store); ok && core.IsField(st.Addr, pkgPickle, "Encoder", fld) && fn != memoizeE {
+								if _, fresh := core.Unwrap(st.Addr.(*ssa.FieldAddr).X).(*ssa.Alloc); !fresh {
+									idIsCounter = false
+								}
+							}
+						})
+					}
+				}
+			}
+		}
+		r.Check(sameCond && (idIsLen || idIsCounter), "R7.4", construct, p.InstrPos(upd), "the id is taken before insertion (memo size or a counter of MEMOIZE opcodes) and MEMOIZE is emitted in the same block", "id assignment and MEMOIZE emission can diverge (different conditions, or id is not the memo size / opcode count before insertion): encoder ids and decoder memo indices drift apart")
+		// with size-based ids every key must be inserted at most once: a memoize that follows the encoding of the
+		// value's contents can find the key already inserted by a nested encoding of the same value
+		if idIsLen && !idIsCounter {
+			sp := p.Pkg("pickle")
+			enc := p.Func("pickle", "Encoder", "encode")
+			encC := p.Func("pickle", "Encoder", "encodeComplex")
+			for _, fn := range p.ModuleFuncs() {
+				if fn.Pkg != sp || fn.Signature.Recv() == nil || recvNamed(fn) != "Encoder" {
+					continue
+				}
+				for i, mcall := range core.CallsTo(fn, memoizeE) {
+					mi, ok := mcall.(*ssa.Call)
+					if !ok {
+						continue
+					}
+					after := false
+					for _, c := range core.Calls(fn) {
+						cal := core.Callee(c)
+						isContents := cal != nil && (cal == enc || cal == encC)
+						if isContents && core.InstrReaches(c.(ssa.Instruction), mi) && !core.InstrReaches(mi, c.(ssa.Instruction)) {
+							after = true
+						}
+					}
+					if !after {
+						continue
+					}
+					ts := assertedTypes(p, mi)
+					nonComparable := false
+					for _, t := range ts {
+						if !types.Comparable(t) {
+							nonComparable = true
+						}
+					}
+					c2 := fmt.Sprintf("%s#rememoization-%d", fname(fn), i+1)
+					if nonComparable {
+						r.OK("R7.4", c2, p.InstrPos(mi), "memoized after its contents, but values of this type are never comparable, so they are never memoized")
+					} else {
+						r.Bad("R7.4", c2, p.InstrPos(mi), "the value is memoized after its contents were encoded and ids are taken from the memo's size: when a nested encoding has already memoized the same value (a recursive function cut by the host pickler), the second insertion does not grow the map but the decoder's memo does, and every later memo reference resolves to the wrong object")
+					}
+				}
+			}
+		}
 	}
 	// other writers of Encoder.memo
 	for _, fn := range p.ModuleFuncs() {
